@@ -25,9 +25,20 @@ def variant(rng, text, mode, WS_RUNS=WS_RUNS, p_ins=0.6):
     """re-spell one accepted filter: mode in {"ws", "case", "bws", "all"}"""
     toks = tokens_with_text(text)
     out = []
+    def kind(k):
+        # punctuation is recognised by its text: whatever the token is called, `,` `(` `)` `:` delimit the same way
+        ty_, raw_ = toks[k]
+        st = raw_.strip()
+        if st in (",", "(", ")", ":") and ty_ not in ("STRING", "GEOGRAPHY"):
+            return st
+        return "WS" if (raw_ != "" and st == "") else ty_
     for i, (ty, raw) in enumerate(toks):
-        nxt = toks[i + 1][0] if i + 1 < len(toks) else None
-        prv = toks[i - 1][0] if i > 0 else None
+        nxt = kind(i + 1) if i + 1 < len(toks) else None
+        prv = kind(i - 1) if i > 0 else None
+        ty = kind(i)
+        if ty == "," and raw != ",":
+            # a comma token that carries whitespace of its own: strip it, the re-layout decides
+            raw = ","
         s = raw
         if ty in OPS:
             kw = raw.strip()
